@@ -45,11 +45,13 @@ FULL_ALPHABET = (
     [('seterr', k, r) for k in ('empty', 'obsdup') for r in ('ignore', 'raise', 'call')] +
     [('seterr_all', 'warn'), ('seterr_all', 'raise')] +
     [('bad', 'reaction'), ('bad', 'kind'), ('bad', 'valid_then_invalid'), ('bad', 'invalid_then_valid')] +
-    [('seterrcall', 'empty', 'cb_one'), ('seterrcall', 'nokind', 'cb_two')] +
+    [('seterrcall', 'empty', 'cb_one'), ('seterrcall', 'empty', 'cb_two'), ('seterrcall', 'nokind', 'cb_two')] +
+    [('trigger', 'empty'), ('trigger', 'obsdup')] +
     [('enter', i) for i in range(5)] + [('exit',), ('exit_exc',)])
 ENTER_ARGS = [{'empty': 'raise'}, {'obsdup': 'ignore'}, {'all': 'print'}, {'empty': 'call', 'sampdup': 'warn'},
               {'nokind': 'raise'}]
 REDUCED = ([('seterr', 'empty', r) for r in ('ignore', 'raise', 'call')] + [('seterr_all', 'warn')] +
+           [('seterrcall', 'empty', 'cb_one'), ('seterrcall', 'empty', 'cb_two'), ('trigger', 'empty')] +
            [('enter', 0), ('enter', 2), ('enter', 3), ('exit',), ('exit_exc',)])
 
 
@@ -63,6 +65,7 @@ class Model:
         self.cur = dict(defaults)
         self.stack = []            # saved profiles of the open scoped overrides
         self.cbs = {}
+        self.triggered = set()     # kinds whose reaction has fired at least once (reads may leave hidden state)
 
     def apply_update(self, upd):
         """returns False when the update must be refused (profile untouched)"""
@@ -182,6 +185,9 @@ def step(op, w, m):
         except KeyError:
             if valid:
                 out.append(('errstate:enter-raised', 'errstate(%r) raised KeyError' % (kw,)))
+    elif kind == 'trigger':
+        out += probe(w, m, kinds=(op[1],))
+        m.triggered.add(op[1])
     elif kind in ('exit', 'exit_exc'):
         if not w.managers:
             raise Skip()
@@ -224,14 +230,17 @@ def key(w, m):
     for cm in w.managers:
         fr = cm.gen.gi_frame
         saved.append(tuple(sorted(fr.f_locals.get('old_state', {}).items())) if fr is not None else None)
-    return h64((tuple(sorted(err.geterr().items())), tuple(saved), tuple(sorted(m.cbs.items()))))
+    return h64((tuple(sorted(err.geterr().items())), tuple(saved), tuple(sorted(m.cbs.items())),
+                tuple(sorted(m.triggered))))
 
 
-def probe(w, m):
+def probe(w, m, kinds=('empty', 'obsdup')):
     """fire one probe per kind of the search alphabet and compare with the model's prediction"""
     err = w.err
     out = []
     for kind, msg in (('empty', err.EMPTY), ('obsdup', err.OBSDUP)):
+        if kind not in kinds:
+            continue
         want = m.cur[kind]
         if want == 'call' and kind not in m.cbs:
             want = 'ignore'      # no callback registered: nothing observable
@@ -491,7 +500,7 @@ def run(run):
     run.extra['alphabet'] = [list(o) for o in FULL_ALPHABET]
     run.extra['enter_args'] = ENTER_ARGS
     run.extra['max_nesting'] = MAXNEST
-    vacuity(run, ['op:' + o for o in ('seterr', 'seterr_all', 'bad', 'seterrcall', 'enter', 'exit', 'exit_exc')] +
+    vacuity(run, ['op:' + o for o in ('seterr', 'seterr_all', 'bad', 'seterrcall', 'trigger', 'enter', 'exit', 'exit_exc')] +
             ['clause:reaction:' + r for r in REACTIONS] + ['site:' + s for s in SITES])
     reset_world()
     run.assumptions += ['errstate context managers are driven by hand (__enter__/__exit__), leaving by exception is '
